@@ -6,7 +6,7 @@ its equivalence with `WF`, and basic look-up lemmas.  `WFp` carries a parameter
 of the both-remote case of `_two_qubit_gate` has a freshly created, still
 empty register); `WF s ↔ WFp none s`.
 -/
-namespace SqVerif.VNet
+namespace SqVerif.VNet.WFP
 
 open List
 
@@ -115,7 +115,7 @@ theorem posIn_eq_some {s : Net} {k o p : Nat} :
   | none => simp
   | some q => by_cases h : q.reg = k <;> simp [h]
 
-theorem NodeWF.toP {s : Net} {i : Nat} {n : Node} (w : NodeWF s i n) : NodeP none s i n := by
+theorem _root_.SqVerif.VNet.NodeWF.toP {s : Net} {i : Nat} {n : Node} (w : NodeWF s i n) : NodeP none s i n := by
   have hinj := regNumsInj_of_nodup w.regNumsNodup
   have hvn := (nodup_filterMap_iff (fun h => (s.vqs[h]?).map (fun (v : VQ) => v.num)) w.virtNodup).1 w.virtNumsNodup
   have hsn := (nodup_filterMap_iff (fun o => (s.sqs[o]?).map (fun (q : SQ) => q.simNum)) w.simNodup).1 w.simNumsNodup
@@ -207,7 +207,7 @@ theorem allHeld_nodup {E} {s : Net} (h : ∀ i n, s.nodes[i]? = some n → NodeP
   rw [e] at e'; cases e'
   rw [← e2, ← e2']
 
-theorem WF.toP {s : Net} (w : WF s) : WFp none s := by
+theorem _root_.SqVerif.VNet.WF.toP {s : Net} (w : WF s) : WFp none s := by
   have hn : ∀ i n, s.nodes[i]? = some n → NodeP none s i n := fun i n h => (w.nodes i n h).toP
   refine { nodes := hn, backSurj := w.backSurj, staleInactive := w.staleInactive,
            toksNodup := w.toksNodup, toksFresh := w.toksFresh, backInj := ?_ }
@@ -540,4 +540,4 @@ theorem SimP.of_eq {E s i} {n n' : Node} (w : SimP E s i n) (h1 : n'.sim = n.sim
            simOK := by rw [h1, h2]; exact w.simOK, posInj := h1 ▸ w.posInj,
            posLt := by rw [h1, h2]; exact w.posLt, posSurj := by rw [h1, h2]; exact w.posSurj }
 
-end SqVerif.VNet
+end SqVerif.VNet.WFP
